@@ -260,21 +260,25 @@ class Manifest:
     def shq(cls, p):
         return p if cls._SAFE.match(p) else "'" + p.replace("'", "'\\''") + "'"
 
-    def binding(self, e, key, _depth=0):
+    def binding(self, e, key, _depth=0, escape=None):
         if _depth > 20:
             raise ManifestError("cycle in rule variables")
+        if escape is None:
+            # ninja: $in/$out are shell-escaped everywhere except in rspfile / depfile paths
+            escape = key not in ("rspfile", "depfile")
+        q = self.shq if escape else (lambda p: p)
 
         def lookup(k):
             if k == "in":
-                return " ".join(self.shq(p) for p in e.ins)
+                return " ".join(q(p) for p in e.ins)
             if k == "in_newline":
-                return "\n".join(self.shq(p) for p in e.ins)
+                return "\n".join(q(p) for p in e.ins)
             if k == "out":
-                return " ".join(self.shq(p) for p in e.outs)
+                return " ".join(q(p) for p in e.outs)
             if k in e.vars:
                 return e.vars[k]
             if k in self.rules[e.rule]:
-                return self.binding(e, k, _depth + 1)
+                return self.binding(e, k, _depth + 1, escape)
             return self._g(k)
 
         if key in e.vars:
